@@ -14,6 +14,19 @@ OP_CLASS = {
 }
 
 
+def run_impl_parallel(histories: list[list[dict]]):
+    """Run every history on its own fresh real store; forked worker processes (each store lives in one process/thread)."""
+    import multiprocessing as mp
+    import os
+
+    n = min(8, os.cpu_count() or 1)
+    if len(histories) < 16 or n < 2 or os.environ.get('VERIF_SERIAL') == '1':
+        return [run_impl(h) for h in histories]
+    ctxmp = mp.get_context('fork')
+    with ctxmp.Pool(n) as pool:
+        return pool.map(run_impl, histories, chunksize=4)
+
+
 def load_corpus(pid: str) -> list[list[dict]]:
     res = []
     d = CORPUS_DIR / pid
@@ -36,8 +49,8 @@ def check_histories(ctx, histories: list[list[dict]], classes: set[str], clause:
     """Runs every history on the implementation and on the model; registers divergences and clause failures."""
     sizing = RealStore(Path('/nonexistent'))
     model = run_model(ctx, sizing, histories)
-    for ops, m in zip(histories, model):
-        impl_outs, impl_keys = run_impl(ops)
+    impl_results = run_impl_parallel(histories)
+    for ops, m, (impl_outs, impl_keys) in zip(histories, model, impl_results):
         ctx.case(json.dumps(ops, sort_keys=True), nontrivial=is_nontrivial(ops, impl_outs),
                  sample={'ops': ops[:12], 'impl': impl_outs[:12]})
         for o in ops:
